@@ -70,10 +70,28 @@ fn views(e: &IncrementalEngine, issued: &[u64]) -> Value {
 fn one_history(rng: &mut Rng) -> Value {
     let log: Arc<Mutex<Vec<Value>>> = Arc::new(Mutex::new(vec![]));
     let mut e = IncrementalEngine::new();
-    let pure = rng.chance(1, 2);
+    // one history in four loads its rules from GRL text through GrlReteLoader (actions only log, so working memory never changes
+    // and the firings are known by name only); r9 tests a dotted path
+    let grl = rng.chance(1, 4);
+    let pure = grl || rng.chance(1, 2);
     let mut ruledesc = vec![];
     let with_r4 = rng.chance(1, 3);
+    if grl {
+        let table = [("r1", "T1.a > 1"), ("r2", "T1.a <= 1"), ("r5", "T1.a >= 2"), ("r6", "T1.a < 3"), ("r3", "T2.a == 2"), ("r9", "T2.n.a >= 2")];
+        let mut text = String::new();
+        for (name, cond) in table {
+            if name != "r9" && rng.chance(1, 3) {
+                continue;
+            }
+            text.push_str(&format!("rule \"{}\" no-loop true salience {} {{\n  when {}\n  then Log(\"{}\");\n}}\n", name, [0, 0, 5, -1, 9, 3][rng.below(6)], cond, name));
+            ruledesc.push(json!({"name": name, "effect": "none", "v": 0}));
+        }
+        rust_rule_engine::rete::grl_loader::GrlReteLoader::load_from_string(&text, &mut e).expect("GRL rules load");
+    }
     for (name, ty, fld, op, c, no_loop) in RULES {
+        if grl {
+            break;
+        }
         if name == "r4" && !with_r4 || (name == "r5" || name == "r6" || name == "r7" || name == "r8") && rng.chance(1, 2) {
             continue;
         }
@@ -123,6 +141,9 @@ fn one_history(rng: &mut Rng) -> Value {
             let (val, a) = gen_a(rng, ty);
             let s = if ty == "T2" { SVALS[rng.below(4)] } else { "-" };
             let mut t = TypedFacts::new();
+            if ty == "T2" {
+                t.set("n.a", val.clone()); // a flattened nested field (path T2.n.a), always equal to a
+            }
             t.set("a", val);
             t.set("s", s);
             let h = e.insert(ty.to_string(), t).id();
@@ -135,6 +156,9 @@ fn one_history(rng: &mut Rng) -> Value {
             let (val, a) = gen_a(rng, types[k]);
             let s = if types[k] == "T2" { SVALS[rng.below(4)] } else { "-" };
             let mut t = TypedFacts::new();
+            if types[k] == "T2" {
+                t.set("n.a", val.clone());
+            }
             t.set("a", val);
             t.set("s", s);
             let ok = e.update(FactHandle::new(h), t).is_ok();
@@ -150,6 +174,11 @@ fn one_history(rng: &mut Rng) -> Value {
             events.push(json!({"ev": "begin", "h": 0, "a": 0, "ok": true, "views": views(&e, &issued)}));
             log.lock().unwrap().clear();
             let fired = e.fire_all();
+            if grl {
+                for name in &fired {
+                    events.push(json!({"ev": "firen", "rule": name, "h": 0, "wm": []}));
+                }
+            }
             // a rule without no-loop is re-activated after every firing and runs to the engine's iteration bound:
             // identical consecutive firing records (same rule, fact, working-memory view) are kept at most twice
             let mut rep = 0;
